@@ -14,15 +14,17 @@ package vault
 //@ ghost lastGroup string
 //@ ghost lastName string
 //@ ghost lastValue float64
+// label map of each application, by application number (references, not contents)
+//@ ghost applyLabels map[int]map[string]string
 
 //@ trusted func (*GroupedVault).ExpireGroupMetrics
 //@   modifies nExpire, lastGroup
 //@   ensures nExpire == old(nExpire) + 1 && lastGroup == group
 
 //@ trusted func (*GroupedVault).CounterAdd
-//@   modifies nApply, lastKind, lastGroup, lastName, lastValue
-//@   ensures nApply == old(nApply) + 1 && lastKind == "add" && lastGroup == group && lastName == name && lastValue == value
+//@   modifies nApply, lastKind, lastGroup, lastName, lastValue, applyLabels
+//@   ensures nApply == old(nApply) + 1 && lastKind == "add" && lastGroup == group && lastName == name && lastValue == value && applyLabels[old(nApply)] == labels
 
 //@ trusted func (*GroupedVault).GaugeSet
-//@   modifies nApply, lastKind, lastGroup, lastName, lastValue
-//@   ensures nApply == old(nApply) + 1 && lastKind == "set" && lastGroup == group && lastName == name && lastValue == value
+//@   modifies nApply, lastKind, lastGroup, lastName, lastValue, applyLabels
+//@   ensures nApply == old(nApply) + 1 && lastKind == "set" && lastGroup == group && lastName == name && lastValue == value && applyLabels[old(nApply)] == labels
